@@ -70,7 +70,7 @@ def to_coq(c):
     k = c["kind"]
     if k == "buckets":
         return "CBuckets %s %s %d%%nat %s %s %s" % (
-            clist([cbytes(x) for x in c["keys"]]), cN(c["minsize"]), c["maxnum"], cbool(c["panic"]),
+            clist([cbytes(x) for x in (c["keys"] or [])]), cN(c["minsize"]), c["maxnum"], cbool(c["panic"]),
             clist([cbytes(x) for x in (c["sorted"] or [])]),
             clist([cpair(cN(b[0]), cN(b[1])) for b in (c["buckets"] or [])]))
     if unenforced(c):
@@ -85,7 +85,7 @@ def to_coq(c):
 
 def nontrivial(c):
     if c["kind"] == "buckets":
-        return ["b", c["keys"], c["minsize"], c["maxnum"]] if len(c["keys"]) >= 2 else None
+        return ["b", c["keys"], c["minsize"], c["maxnum"]] if len(c["keys"] or []) >= 2 else None
     if c.get("nrec", 0) == 0:
         return None
     h = hashlib.sha1(json.dumps([c.get("file"), c["nlines"], c["nrec"]]).encode()).hexdigest()[:12]
@@ -107,7 +107,7 @@ def case_class(c):
 
 def shrink_candidates(c):
     if c["kind"] == "buckets":
-        ks = c["keys"]
+        ks = c["keys"] or []
         for i in range(len(ks)):
             yield dict(c, keys=ks[:i] + ks[i + 1:])
         return
